@@ -10,7 +10,10 @@
 // no one, (A4) the stat API lists exactly the model's sessions.  At the end (A3) the notification sequence pairs
 // start/stop exactly once per accepted network session and has nothing for refused publishers or subscribers.
 //
-// Files: media_test.go (what the inputs send), sinks_test.go (subscriber kinds), outputs_test.go (file outputs).
+// Files: media_test.go (what the inputs send), sinks_test.go (subscriber kinds), outputs_test.go (file outputs),
+// sweep_test.go (ticks with lal's liveness sweep: a session idle over two consecutive sweeps goes, nobody else).
+// A relay pull that is still connecting is part of the model (second start refused, stop = never attaches, its id
+// is a foreign id for kick).
 //
 // Not asserted: relative order of notifications of different sessions, HasInSession/HasOutSession flags,
 // notifications for customize inputs; whether GB28181 inputs produce pub notifications at all (lal never had
